@@ -1368,6 +1368,54 @@ fn sweep_arrangement(mut idx: usize) -> Vec<u64> {
 
 const SWEEP_ACKS_N: usize = 13_700;
 
+/// the range list at / around its cap: n single-element ranges 10, 12, 14, …, then one or two late or new
+/// arrivals at every position that matters relative to the oldest and newest range
+const SWEEP_CAP_BASES: [u64; 4] = [62, 63, 64, 65];
+const SWEEP_CAP_N: usize = 4 * 12 * 12;
+
+fn sweep_cap_ops(mut case: usize) -> Vec<String> {
+    let n = SWEEP_CAP_BASES[case % 4];
+    case /= 4;
+    let last = 10 + 2 * (n - 1);
+    let places = |k: usize| -> Option<u64> {
+        match k {
+            0 => None,
+            1 => Some(9),        // adjacent below the oldest range
+            2 => Some(8),        // one gap below it
+            3 => Some(0),
+            4 => Some(11),       // fills the gap between the two oldest ranges
+            5 => Some(13),
+            6 => Some(last - 1), // fills the gap between the two newest
+            7 => Some(last + 1), // extends the newest
+            8 => Some(last + 2), // a new newest range
+            9 => Some(last + 40),
+            10 => Some(10),      // duplicate of the oldest
+            _ => Some(7),
+        }
+    };
+    let a = places(case % 12);
+    let b = places((case / 12) % 12);
+    let mut ops = vec![cfg_line(60_000, &default_chans(), &default_chans()), "cli 0".to_string()];
+    let pkt = |seq: u64| -> String {
+        let mut b = vec![1u8];
+        b.extend(varint(seq));
+        b.push(0);
+        b.extend(0u16.to_be_bytes());
+        format!("raw c0 {}", hex(&b))
+    };
+    for k in 0..n {
+        ops.push(pkt(10 + 2 * k));
+    }
+    ops.push("dump c0".into());
+    for late in [a, b].iter().flatten() {
+        ops.push(pkt(*late));
+        ops.push("dump c0".into());
+    }
+    ops.push("flush c0".into());
+    ops.push("note sweep-acks".into());
+    ops
+}
+
 fn sweep_acks_ops(case: usize) -> Vec<String> {
     let mut ops = vec![cfg_line(60_000, &default_chans(), &default_chans()), "cli 0".to_string()];
     let spread = [0u64, 1, 2, 3, 4, 5, 6];
@@ -1395,6 +1443,22 @@ fn oracle_sweep_acks(ops: &[String], outs: &[String]) -> Option<OracleFail> {
         if let Some(h) = op.strip_prefix("raw c0 ") {
             if let Some(p) = decode(h) {
                 got.insert(p.sequence());
+                // "the newest 64 ranges of it": when a 65th range appears the oldest one is forgotten for good
+                loop {
+                    let mut ranges: Vec<(u64, u64)> = vec![];
+                    for s in got.iter() {
+                        match ranges.last_mut() {
+                            Some(r) if r.1 == *s => r.1 = s + 1,
+                            _ => ranges.push((*s, s + 1)),
+                        }
+                    }
+                    if ranges.len() <= 64 {
+                        break;
+                    }
+                    for x in ranges[0].0..ranges[0].1 {
+                        got.remove(&x);
+                    }
+                }
             }
         }
         if op == "dump c0" {
@@ -1898,6 +1962,16 @@ pub fn profiles() -> Vec<Profile> {
         nontrivial: |_| true,
         keep: |_| 5,
         fixed: Some(sweep_slices_ops),
+    },
+    Profile {
+        name: "rn-sweep-acks-cap",
+        props: &["C16", "C08", "C13"],
+        cases: |_| SWEEP_CAP_N,
+        new_world,
+        script: script_none,
+        nontrivial: |_| true,
+        keep: |_| 2,
+        fixed: Some(sweep_cap_ops),
     },
     Profile {
         name: "rn-acks",
